@@ -29,6 +29,7 @@ func init() {
 			{ID: "C18.R7", Floor: 2, Run: c18r7, Text: "Compile publishes what it built: wherever the compiled filter is set to the address of one of Compile's own sub-filters (relationFilter, maskFilter), that sub-filter has been assigned on every path since the function's entry check"},
 			{ID: "C18.R8", Floor: 2, Run: c18r8, Text: "Exchange builder consistency: every builder stored into Exchange.builder went through WithRelation(relationID) on every path on which hasRelation may be true"},
 			{ID: "C18.R9", Floor: 10, Run: c16r4, Text: "the generic relation-type test agrees with the core's (= C16.R4)"},
+			{ID: "C18.R10", Floor: 6, Run: c18r10, Text: "the compiled filter loses no clause: every value stored into compiledQuery.filter is the full mask filter, or its Include mask alone only where `exclusive` is false and `exclude` is empty, or (exactly where a target is given) the relation filter built in the same block around one of those two with the `target` argument; Register wraps the current filter, Unregister restores what Cache.Unregister returns for it"},
 		},
 	})
 }
@@ -727,4 +728,170 @@ func builderHasRelation(p *Prog, fn *ssa.Function, ptr ssa.Value, wr *ssa.Functi
 		return false, "unrecognised builder source " + apath(v)
 	}
 	return check(ptr, nil, nil)
+}
+
+// ---------- R10: filter composition in compiledQuery ----------
+
+func c18r10(p *Prog, r *Reporter) {
+	type site struct {
+		fn *ssa.Function
+		st *ssa.Store
+	}
+	var sites []site
+	for _, fn := range p.Funcs {
+		if typeName(recvType(fn)) != "compiledQuery" {
+			continue
+		}
+		for _, b := range fn.Blocks {
+			for _, ins := range b.Instrs {
+				st, ok := ins.(*ssa.Store)
+				if !ok {
+					continue
+				}
+				fa, ok := st.Addr.(*ssa.FieldAddr)
+				if ok && typeName(fa.X.Type()) == "compiledQuery" && fieldName(fa.X.Type(), fa.Field) == "filter" {
+					sites = append(sites, site{fn, st})
+				}
+			}
+		}
+	}
+	if len(sites) == 0 {
+		r.Anchor("generic.compiledQuery.filter")
+		return
+	}
+	// classify an interface value stored as a filter
+	// A: &q.maskFilter   B: q.maskFilter.Include (value)   C: &q.relationFilter   D: &q.cachedFilter   U: result of Cache.Unregister
+	classify := func(v ssa.Value) (kind string, inner ssa.Value) {
+		if mi, ok := v.(*ssa.MakeInterface); ok {
+			x := mi.X
+			if fa, ok := x.(*ssa.FieldAddr); ok && typeName(fa.X.Type()) == "compiledQuery" {
+				switch fieldName(fa.X.Type(), fa.Field) {
+				case "maskFilter":
+					return "A", nil
+				case "relationFilter":
+					return "C", nil
+				case "cachedFilter":
+					return "D", nil
+				}
+			}
+			if ld, ok := x.(*ssa.UnOp); ok && ld.Op == token.MUL {
+				if pth := apath(ld.X); strings.HasSuffix(pth, ".maskFilter.Include") {
+					return "B", nil
+				}
+			}
+			return "?", x
+		}
+		if c := callOf(v); c != nil {
+			if sc := c.Common().StaticCallee(); sc != nil && sc.Name() == "Unregister" && typeName(recvType(sc)) == "Cache" {
+				return "U", c.Common().Args[1]
+			}
+		}
+		return "?", v
+	}
+	n := map[string]int{}
+	for _, s := range sites {
+		fn, st := s.fn, s.st
+		name := p.FuncName(fn)
+		kind, inner := classify(st.Val)
+		n[name+kind]++
+		construct := fmt.Sprintf("filter store (%s) #%d", map[string]string{"A": "mask filter", "B": "include mask only", "C": "relation filter", "D": "cached filter", "U": "unregistered filter", "?": "other"}[kind], n[name+kind])
+		pos := p.Pos(st.Pos())
+		noExcl := func(at ssa.Instruction) string {
+			if !factBefore(fn, at, "exclusive=false") {
+				return "`exclusive` is not known to be false here"
+			}
+			if !factBefore(fn, at, "lenzero(exclude)") {
+				return "`exclude` is not known to be empty here"
+			}
+			return ""
+		}
+		underTarget := fn.Name() == "Compile" && factBefore(fn, st, "hasTarget=true")
+		switch kind {
+		case "A":
+			if underTarget {
+				r.Bad(name, construct, pos, "a target is given here, but the filter stored is the plain mask filter: the target clause is lost")
+			} else if fn.Name() != "Compile" {
+				r.Bad(name, construct, pos, "outside Compile the filter may only be wrapped (Register) or restored (Unregister); storing the plain mask filter drops a relation clause compiled earlier")
+			} else {
+				r.OK(name, construct, pos, "the full mask filter (include and exclude), where no target is given")
+			}
+		case "B":
+			if underTarget || fn.Name() != "Compile" {
+				r.Bad(name, construct, pos, "the include mask alone is stored where a target is given / outside Compile: clauses are lost")
+			} else if why := noExcl(st); why != "" {
+				r.Bad(name, construct, pos, "the include mask alone is used as the filter, but "+why+": the exclude clause is lost")
+			} else {
+				r.OK(name, construct, pos, "include mask alone, where exclusive is false and exclude is empty (the exclude mask is zero)")
+			}
+		case "C":
+			// the relation filter assigned in the same block, before this store
+			var mk *ssa.Call
+			for _, ins := range st.Block().Instrs {
+				if ins == ssa.Instruction(st) {
+					break
+				}
+				if s2, ok := ins.(*ssa.Store); ok {
+					if fa, ok := s2.Addr.(*ssa.FieldAddr); ok && typeName(fa.X.Type()) == "compiledQuery" && fieldName(fa.X.Type(), fa.Field) == "relationFilter" {
+						mk = callOf(s2.Val)
+					}
+				}
+			}
+			switch {
+			case !underTarget:
+				r.Bad(name, construct, pos, "the relation filter is stored where `hasTarget` is not known true")
+			case mk == nil || mk.Common().StaticCallee() == nil || mk.Common().StaticCallee().Name() != "NewRelationFilter":
+				r.Bad(name, construct, pos, "the relation filter is not (re)built by NewRelationFilter in the same block: a stale target or filter would be used")
+			default:
+				ik, _ := classify(mk.Common().Args[0])
+				tgt, isP := mk.Common().Args[1].(*ssa.Parameter)
+				switch {
+				case !isP || tgt.Name() != "target":
+					r.Bad(name, construct, pos, "the relation filter's target is "+apath(mk.Common().Args[1])+", not the `target` argument")
+				case ik == "A":
+					r.OK(name, construct, pos, "NewRelationFilter(&maskFilter, target): include, exclude and target clauses all present")
+				case ik == "B":
+					if why := noExcl(mk); why != "" {
+						r.Bad(name, construct, pos, "the relation filter wraps the include mask alone, but "+why+": Without/Exclusive would be ignored for fixed targets")
+					} else {
+						r.OK(name, construct, pos, "NewRelationFilter(include, target) where the exclude mask is zero")
+					}
+				default:
+					r.Bad(name, construct, pos, "the relation filter wraps "+apath(mk.Common().Args[0])+", which is neither the mask filter nor its include mask")
+				}
+			}
+		case "D":
+			// cachedFilter = Cache.Register(load q.filter) earlier in the same block
+			okd := false
+			for _, ins := range st.Block().Instrs {
+				if ins == ssa.Instruction(st) {
+					break
+				}
+				if s2, ok := ins.(*ssa.Store); ok {
+					if fa, ok := s2.Addr.(*ssa.FieldAddr); ok && fieldName(fa.X.Type(), fa.Field) == "cachedFilter" {
+						if c := callOf(s2.Val); c != nil && c.Common().StaticCallee() != nil && c.Common().StaticCallee().Name() == "Register" {
+							if _, f, _, ok := loadedField(c.Common().Args[1]); ok && f == "filter" {
+								okd = true
+							}
+						}
+					}
+				}
+			}
+			r.Check(okd, name, construct, pos, "the cached filter stored is the one just returned by Cache.Register(q.filter)")
+		case "U":
+			// argument: type assertion of the current filter
+			oku := false
+			v := inner
+			if ex, ok := v.(*ssa.Extract); ok {
+				v = ex.Tuple
+			}
+			if ta, ok := v.(*ssa.TypeAssert); ok {
+				if _, f, _, ok := loadedField(ta.X); ok && f == "filter" {
+					oku = true
+				}
+			}
+			r.Check(oku, name, construct, pos, "the filter restored is what Cache.Unregister returns for the current (cached) filter: the original filter with all its clauses")
+		default:
+			r.Bad(name, construct, pos, "the value stored as the filter ("+apath(inner)+") is none of: mask filter, include mask, relation filter, cached filter, Cache.Unregister result")
+		}
+	}
 }
